@@ -115,7 +115,7 @@ Proof.
 Qed.
 Print Assumptions C13_returned_register_justifies_refuted.
 
-(** the register search itself: sound, and complete inside the linear window *)
+(** the register search itself (both strategies): sound, and complete inside the linear window *)
 Theorem C13_repair_sound :
   forall (Hp : meas -> Z -> list Z) P st m digest v,
   repair Hp P st m digest = Some v -> Hp m v = digest.
@@ -137,6 +137,46 @@ Theorem C13_repair_linear_inside_limit :
   forall P limit d, In d (lin_cands P limit) -> 0 <= d < limit.
 Proof. exact lin_cands_below_limit. Qed.
 Print Assumptions C13_repair_linear_inside_limit.
+
+(** ... with EnableACMPolicyCombinatorialStrategy the search is also complete for every
+    register that differs from the simulated one in at most
+    MaxACMPolicyCombinatorialDistance bits: [bs] are distinct bit positions of the register
+    ([picks bs (seqZ 0 64)]: some of 0..63, ascending), [mask_of bs] the value with exactly
+    these bits set; [comb_limit] reads the setting as the code does (uint64, so a negative
+    one means all 64 bits) *)
+Theorem C13_repair_complete_combinatorial :
+  forall (Hp : meas -> Z -> list Z) P st m digest bs,
+  st_comb_enabled st = true ->
+  picks bs (seqZ 0 64) -> (length bs <= comb_limit (st_comb_limit st))%nat ->
+  Hp m (Z.lxor (m_first8 m) (mask_of bs)) = digest ->
+  exists v, repair Hp P st m digest = Some v /\ Hp m v = digest.
+Proof. exact repair_complete_comb. Qed.
+Print Assumptions C13_repair_complete_combinatorial.
+
+Example C13_repair_complete_combinatorial_example :
+  picks [3; 40] (seqZ 0 64) /\ mask_of [3; 40] = 2 ^ 3 + 2 ^ 40 /\
+  (length [3; 40] <= comb_limit 2)%nat /\ ~ (length [3; 40] <= comb_limit 1)%nat.
+Proof.
+  split; [vm_compute; repeat constructor|]. split; [reflexivity|]. split; vm_compute; lia.
+Qed.
+
+(** The search varies the register and nothing else of the measurement: a recorded digest
+    that NO register value explains (PCR0_DATA that differs behind its first 8 bytes:
+    another ACM SVN, a bit error in the measured structure) is never repaired - the entry
+    stays a mismatch by C13_status_truthful -, and whatever is returned as the corrected
+    register is a 64-bit value. *)
+Theorem C13_repair_none_without_register :
+  forall (Hp : meas -> Z -> list Z) P st m digest,
+  (forall v, Hp m v <> digest) -> repair Hp P st m digest = None.
+Proof. exact repair_none_if_no_register. Qed.
+Print Assumptions C13_repair_none_without_register.
+
+Theorem C13_repair_register_range :
+  forall (Hp : meas -> Z -> list Z) P st m digest v,
+  0 <= m_first8 m < 2 ^ 64 ->
+  repair Hp P st m digest = Some v -> 0 <= v < 2 ^ 64.
+Proof. exact repair_register_range. Qed.
+Print Assumptions C13_repair_register_range.
 
 (** ** Identical log *)
 
